@@ -140,10 +140,18 @@ class HttpxTransport:
         # We pass a temporary request_args dict containing only the headers to the auth plugin,
         # as the auth plugin might expect other keys which are not relevant for header preparation.
         # The auth plugin is expected to modify the 'headers' key in the passed dict.
-        temp_request_args_for_auth = {"headers": prepared_headers.copy()}
+        temp_request_args_for_auth: dict[str, Any] = {"headers": prepared_headers.copy()}
+        # Query parameters and cookies are passed along as well, so that plugins that authenticate through
+        # them (e.g. ApiKeyAuth with location="query" or "cookie") take effect on the outgoing request.
+        for key in ("params", "cookies"):
+            if current_request_kwargs.get(key) is not None:
+                temp_request_args_for_auth[key] = current_request_kwargs[key]
 
         if self._auth is not None:
             authenticated_args = await self._auth.authenticate_request(temp_request_args_for_auth)
+            for key in ("params", "cookies"):
+                if key in authenticated_args:
+                    current_request_kwargs[key] = authenticated_args[key]
             # Ensure 'headers' key exists and is a dict after authentication
             if "headers" in authenticated_args and isinstance(authenticated_args["headers"], dict):
                 prepared_headers = authenticated_args["headers"]
@@ -183,10 +191,11 @@ class HttpxTransport:
             HTTPError: For non-2xx HTTP responses.
         """
         # Prepare request arguments, excluding headers initially
-        request_args: dict[str, Any] = {k: v for k, v in kwargs.items() if k != "headers"}
-
         # This method handles default headers, request-specific headers, and authentication
+        # (authentication plugins may also add query parameters or cookies to kwargs)
         prepared_headers = await self._prepare_headers(kwargs)
+
+        request_args: dict[str, Any] = {k: v for k, v in kwargs.items() if k != "headers"}
         request_args["headers"] = prepared_headers
 
         response = await self._client.request(method, url, **request_args)
